@@ -1036,14 +1036,14 @@ func c08WriteRows(rows []c08Row, opts ...parquet.WriterOption) ([]byte, error) {
 	return buf.Bytes(), nil
 }
 
-// c08MergedFile: A holds the ids 0..2999 and the even ids of 3000..4999, B the odd ids of
-// 3000..4999 and 5000..7999, both sorted by id; MergeRowGroups cuts the lone stretches off as row
-// range views. The rows of the file are A's then B's: the order in which the column chunks of the
+// c08MergedFile: A holds the ids 0..1199 and the even ids of 1200..1599, B the odd ids of
+// 1200..1599 and 1600..2799, both sorted by id; MergeRowGroups cuts the lone stretches (>= 1024 rows,
+// rounded to page boundaries) off as row range views. The rows of the file are A's then B's: the order in which the column chunks of the
 // merged row group hold them.
 func c08MergedFile() (*c08File, error) {
 	var rowsA, rowsB []c08Row
-	for i := 0; i < 8000; i++ {
-		inA := i < 3000 || (i < 5000 && i%2 == 0)
+	for i := 0; i < 2800; i++ {
+		inA := i < 1200 || (i < 1600 && i%2 == 0)
 		if inA {
 			rowsA = append(rowsA, c08MakeRow(i, i%4))
 		} else {
@@ -2182,9 +2182,18 @@ func RunC08(ctx *core.Ctx) {
 			ctx.Fail("L1", "oracle-sequential-read-differs", "merged file: "+err.Error(), nil)
 		} else {
 			r := ctx.Rand("c08/merged")
-			borders := []int{3000, 4000, 5000, 8000}
+			borders := []int{1200, 1400, 1600, 2800}
 			for _, kind := range c08MergedKinds {
 				for col := 0; col < mf.ncol; col++ {
+					// a seek into the first range view, then a sequential read across its end and well into
+					// the next segment
+					for _, k := range []int64{1, 7, 33} {
+						ops := []c08Op{{K: 's', A: k}}
+						for i := 0; i < 90; i++ {
+							ops = append(ops, c08Op{K: 'r', A: 64})
+						}
+						w.runCase(mf, c08Spec{Kind: kind, Col: col, SkipIndex: k == 7}, ops, "merged file: read across the end of a range view")
+					}
 					for h := 0; h < ctx.Scale(4, 12); h++ {
 						sp := c08Spec{Kind: kind, Col: col, SkipIndex: r.Intn(2) == 0, Async: r.Intn(3) == 0, ReadBuf: []int{0, 0, 16, 300, 4096}[r.Intn(5)]}
 						v, err := mf.open(sp)
